@@ -125,7 +125,7 @@ func runC01(c *core.Ctx) {
 	c.Rule("R3", "observers touch the wrapped value / call the callback only on the present edge and return the prescribed absent result on the absent edge", 20)
 	c.Rule("R4", "None's overrides equal the absent-edge results of the generic implementation", 15)
 	c.Rule("R5", "FlatMap = f(wrapped value), once, result unchanged; ToMaybe unwraps at most one level", 2)
-	c.Rule("R6", "totality: unchecked assertions dominated by the matching comma-ok success (or reflect round trip); reflect calls with preconditions discharged by table guards", 20)
+	c.Rule("R6", "totality: unchecked assertions dominated by the matching comma-ok success (or reflect round trip); reflect calls with preconditions discharged by table guards", 10)
 	some := p.Methods(p.Fpgo, "someDef")
 	byName := map[string]*ssa.Function{}
 	for _, m := range some {
@@ -509,15 +509,12 @@ func runC01(c *core.Ctx) {
 		core.Instrs(tm, func(ins ssa.Instruction) {
 			if r, isR := ins.(*ssa.Return); isR && r.Block() != tm.Recover {
 				v := core.Resolve(core.RetVals(r)[0])
-				switch x := v.(type) {
-				case *ssa.TypeAssert:
+				if x := core.AssertOf(core.Unwrap(v)); x != nil {
 					if core.FieldKey(core.Resolve(x.X)) != "someDef.ref" {
 						bad = "returns an assertion of something other than the wrapped value"
 					}
-				default:
-					if c01describe(v, tm) != "recv" {
-						bad = "returns neither the receiver nor the wrapped Maybe"
-					}
+				} else if c01describe(v, tm) != "recv" {
+					bad = "returns neither the receiver nor the wrapped Maybe"
 				}
 			}
 		})
